@@ -640,6 +640,13 @@ class Unit:
             sig = re.sub(r'\bfn\s+' + re.escape(fs.selector.rsplit('::', 1)[-1]) + r'\b', 'fn ' + fs.opts['rename'], sig, count=1)
         if fs.sig_override is not None:
             sig = fs.sig_override.rstrip()
+        # a parameter that a change left unused is conventionally renamed `_name`; the contract still speaks about `name`
+        for um in re.finditer(r'\b_([a-z][a-z_0-9]*)\s*:', sig):
+            nm = um.group(1)
+            if re.search(r'\b%s\b' % re.escape(nm), fs.spec or '') and not re.search(r'\b_%s\b' % re.escape(nm), fs.spec or '') \
+                    and not re.search(r'\b%s\s*:' % re.escape(nm), sig):
+                sig = re.sub(r'\b_%s\b' % re.escape(nm), nm, sig)
+                body = re.sub(r'\b_%s\b' % re.escape(nm), nm, body)
         # --- body
         body = strip_attrs_in_body(body)
         body = strip_macros(body)
